@@ -13,6 +13,10 @@ def run(tier):
     sph = tlc.run("Extent.tla", "Extent_sph_quick.cfg" if quick else "Extent_sph_thorough.cfg", workers=12, timeout=3000, heap="16g")
     c.add_tlc(sph, "the same polygons as spherical footprints at three longitudes (ordinary, straddling +-180, beyond -180)")
     beh += sph.behaviours
+    # local depth intervals: the depth range of an area feature given at points (Surface.tla, affine data, the polygon without zero coordinates)
+    srf = tlc.run("Surface.tla", "Surface.cfg", workers=12, timeout=1800, heap="12g")
+    c.add_tlc(srf, "area features whose min and/or max depth is a surface given at points (local depth interval)")
+    beh += [b for b in srf.behaviours if '"affine"' in b[:400] and '"poly2"' in b[:400]]
     for cfg, nm in (("Plume_cart_quick.cfg", "plume tables, Cartesian"), ("Plume_sph_quick.cfg", "plume tables, spherical")):
         r = tlc.run("Plume.tla", cfg, workers=12, timeout=1800, heap="12g")
         c.add_tlc(r, nm)
